@@ -59,6 +59,9 @@ def gen(ctx):
                     fs_.append(dict(fk, where=r.choice(wheres), name=fk['name'] + str(len(fs_))))
                 D.append(dict(target=target, func=func, form=r.choice(['object', 'str', 'path']), foreign=fs_,
                               meta=r.random() < 0.5, mode='r+'))
+    # a stale object: its directory was deleted and the path re-used by something else
+    for target in ('stale_ragged', 'stale_plaindir'):
+        D.append(dict(target=target, func='delete_array', form='object', foreign=[]))
     # wrong kind / not an array
     for target in ('Array', 'RaggedArray', 'plaindir', 'file', 'missing'):
         for func in ('delete_array', 'delete_raggedarray'):
@@ -69,8 +72,12 @@ def gen(ctx):
     for func in ('asarray', 'create_array', 'asraggedarray', 'create_raggedarray', 'copy', 'rcopy', 'archive'):
         for occ in ('Array', 'bigArray', 'RaggedArray', 'plaindir', 'file'):
             for ow in (False, True):
-                for foreign in ([], [dict(kind='file', name='keep.dat', where='')]):
+                for foreign in ([], [dict(kind='file', name='keep.dat', where='')],
+                                [dict(kind='file', name='arraydescription.tmp', where=''), dict(kind='file', name='metadata.tmp', where=''),
+                                 dict(kind='file', name='.hidden', where='')]):
                     if occ == 'file' and foreign:
+                        continue
+                    if len(foreign) > 1 and not ow:
                         continue
                     if func == 'archive' and occ != 'file':
                         continue
@@ -110,7 +117,12 @@ def run(ctx):
         fps = foreign_paths(case)
         if not ob['outside_same']:
             ctx.fail('delete-touched-outside', key, observed=ob['res'])
-        if not right_kind:
+        if case['target'].startswith('stale_'):
+            # whatever the object once described is gone: the call must fail and touch nothing of the new occupant
+            if ob['res'][0] == 'ok' or ob['after'] != ob['before']:
+                ctx.fail('stale-object-delete-touched-new-occupant', key, expected='an exception, directory untouched',
+                         observed=dict(res=ob['res'], unchanged=ob['after'] == ob['before'], after=sorted(ob['after'])))
+        elif not right_kind:
             if ob['res'][0] == 'ok' or ob['res'][1] != 'TypeError' or ob['after'] != ob['before']:
                 ctx.fail('not-an-array-not-refused', key, expected='TypeError, untouched',
                          observed=dict(res=ob['res'], unchanged=ob['after'] == ob['before']))
